@@ -59,7 +59,7 @@ theorem put_get_roundtrip (md5 : Bytes → Bytes) (cfg : Cfg) (m : Mem) (b : Byt
             subst hm
             refine ⟨hh.symm, ?_⟩
             -- unfold the put: the bucket is there, the object is inserted
-            unfold Mem.put at hp
+            unfold Mem.put Mem.putCommit at hp
             cases hb : SMap.find m1.buckets b with
             | none => rw [hb] at hp; simp at hp
             | some bk =>
